@@ -193,6 +193,11 @@ Example C07_ex_history :
   ([Some (1, [Filled 7]); Some (3, [Filled 1; Filled 3]); Some (3, [Filled 1; Filled 8; Filled 3])],
    [Done; Done; Done; Done; Done; Done]).
 Proof. reflexivity. Qed.
+(* emplace_back() / emplace(pos) without arguments insert the value-initialised element T(), value 0 in the model *)
+Example C07_ex_default_emplace :
+  prun (plain [ONewList 0 [1; 2; 3]; OErase 0 1; OEmplaceBack 0 0; OPop 0; OEmplace 0 0 0]) (empty_pool 1) =
+  ([Some (mkfv 3 3 [Filled 0; Filled 1; Filled 3])], [Done; Done; Done; Done; Done]).
+Proof. reflexivity. Qed.
 Example C07_ex_alias_history :
   srun [ONewFrom 0 5 [1; 2; 3]; OEmplaceAt 0 0 2; OEmplaceAt 0 1 1; OMoveAssign 0 0; OPushBackSelfRange 0 0 1]
        (repeat None 1) =
